@@ -144,6 +144,11 @@ class VerifEnv:
             lib.fresh_like(I, fr.locals[mname], 'mod_' + mname)      # in place for symbolic lists
         fr.locals['result'] = res
         fr.locals['__old__'] = oldf
+        # ghost witnesses of the callee's postcondition exist (it was proved with them): fresh values stand for them
+        for spec in c.loops.values():
+            for gname, gsort in getattr(spec, 'ghost', {}).items():
+                if gname not in fr.locals:
+                    fr.locals[gname] = sorts.build(I, gsort, 'ghost_' + gname)
         for name, src in c.ensures:
             I.p.assume(I.formula_src(src, fr))
         return res
@@ -296,6 +301,7 @@ def verify(env, c, thorough=False):
             return
         res.notes.extend(n for n in p.notes if n not in res.notes)
         post = Frame(fi, fi.module, dict(fr_locals), cls=fi.cls)
+        post.locals.update(getattr(I, 'top_ghosts', None) or {})
         post.locals['__old__'] = old
         try:
             if raised is not None:
